@@ -36,12 +36,14 @@ func cmdRun(args []string) {
 	fs := flag.NewFlagSet("run", flag.ExitOnError)
 	pkg := fs.String("pkg", "fasthttp", "harness dir")
 	harness := fs.String("harness", "", "harness function name(s), comma separated")
-	solver := fs.String("solver", "z3", "z3|z3-new|cvc5")
+	solver := fs.String("solver", "z3-new", "z3|z3-new|cvc5")
 	workers := fs.Int("workers", 16, "parallel workers")
 	arch := fs.String("arch", "amd64", "amd64|386")
 	timeout := fs.Int("qtimeout", 10000, "per-query timeout ms")
 	pathCap := fs.Int("pathcap", 200000, "max paths")
 	debug := fs.Bool("debug", false, "propagate engine panics")
+	paramStr := fs.String("param", "", "k=v,k=v vParam values")
+	nomerge := fs.Bool("nomerge", false, "disable if-conversion")
 	fs.Parse(args)
 	t0 := time.Now()
 	ld, err := drive.Load([]string{*pkg}, *arch)
@@ -51,6 +53,14 @@ func cmdRun(args []string) {
 	}
 	fmt.Fprintf(os.Stderr, "loaded in %.1fs\n", time.Since(t0).Seconds())
 	sp := ld.Pkgs[*pkg]
+	params := map[string]int{}
+	for _, kv := range strings.Split(*paramStr, ",") {
+		if i := strings.IndexByte(kv, '='); i > 0 {
+			n := 0
+			fmt.Sscanf(kv[i+1:], "%d", &n)
+			params[kv[:i]] = n
+		}
+	}
 	rc := 0
 	for _, h := range strings.Split(*harness, ",") {
 		fn := sp.Func(h)
@@ -61,7 +71,8 @@ func cmdRun(args []string) {
 		st, err := interp.Explore(ld.Prog, fn, interp.ExploreOpts{
 			Workers: *workers, Solver: *solver, TimeoutMs: *timeout, WordBits: ld.WordBits,
 			InitPkg: sp, PathCap: *pathCap, Debug: *debug,
-			Setup: func(it *interp.Interp) { it.InitAllow = drive.DefaultInitAllow },
+			Progress: true,
+			Setup: func(it *interp.Interp) { it.InitAllow = drive.DefaultInitAllow; it.Params = params; it.NoMerge = *nomerge },
 		})
 		if err != nil {
 			fmt.Fprintln(os.Stderr, "explore:", err)
